@@ -271,6 +271,14 @@ def check_C17(tier, seed):
         for j, v in enumerate(["all", "empty", "all-" + x, "only-" + x, "all-" + y, "only-" + y, "nof64"]):
             capcases.append({"id": "cap-%05d-%d" % (i, j), "family": "capability-sets", "S": S, "opts": F.opts(validate=v)})
     drive_and_judge(rep, "C17", capcases, "caps", ["mods"])
+    # the same kinds of rejected sources from a process whose working directory no longer exists (errors are rendered against absolute paths too)
+    import engine as _E
+    _E.VDRIVER_ENV["VERIF_DELETED_CWD"] = "1"
+    try:
+        gone = [dict(c, id="gone-" + c["id"]) for c in cases if c["family"].startswith(("semantic-", "capability-", "valid-odd"))][:(300 if quick else 3000)]
+        drive_and_judge(rep, "C17", gone, "deleted-cwd", ["mods"])
+    finally:
+        _E.VDRIVER_ENV.pop("VERIF_DELETED_CWD", None)
     return finish(rep)
 
 
@@ -380,6 +388,10 @@ def check_C18(tier, seed):
     for i, flip in enumerate([{"bmv": False}, {"bmh": True, "enc": False}, {"enc": False}, {"serde": True}, {"mv": "rust"}, {"mv": "nalgebra", "enc": False}, {"rustfmt": True}, {"validate": "all"},
                               {"validate": "empty"}, {"validate": "all-PUSH_CONSTANT"}, {"validate": "only-PUSH_CONSTANT"}, {"include": "a.wgsl"}, {"include": "b.wgsl"}, {"include": "dir/a.wgsl"}, {"include": "dir\\a.wgsl"}, {"include": "..\\x\\a.wgsl"}]):
         L.append({"id": "h-flip-%d" % i, "family": "history", "S": twins[0], "opts": dict(base_o, **flip), "repeat": 1})
+    L.append({"id": "h-snake", "family": "history", "repeat": 3, "opts": F.opts(),
+              "S": {"structs": [{"name": "VertexInput", "members": [{"name": "a", "ty": F.VEC4, "io": {"k": "loc", "n": 0}}]}, {"name": "vertexInput", "members": [{"name": "b", "ty": F.VEC4, "io": {"k": "loc", "n": 1}}]}],
+                    "globals": [], "consts": [], "overrides": [], "functions": [],
+                    "entries": [{"name": "vs_main", "stage": "vertex", "params": [{"k": "struct", "name": "p", "ty": "VertexInput"}, {"k": "struct", "name": "q", "ty": "vertexInput"}], "result": {"k": "builtin", "b": "position"}, "body": [], "wg": []}]}})
     kw = {"structs": [{"name": "KW", "members": [{"name": "box", "ty": {"k": "scalar", "s": "f32"}}]}],
           "globals": [{"name": "kwbuf", "space": "storage_r", "group": "0", "binding": "0", "ty": {"k": "struct", "name": "KW"}}], "consts": [], "overrides": [], "functions": [],
           "entries": [{"name": "main", "stage": "compute", "params": [], "body": [{"k": "access", "g": "kwbuf", "how": "addr"}], "wg": ["1"]}]}
@@ -444,9 +456,12 @@ def check_C18(tier, seed):
     by_src = {}
     order = []
     total = 0
+    env_events = []
     for tag, evs in (("A", evA), ("B", evB), ("C", evC), ("D", evD), ("E", evE), ("F", evF), ("G", evG)):
         if tag == "D":
             sched_events = [e for e in evs if e["ev"] == "sched"]
+        if tag in ("D", "E"):
+            env_events += [e for e in evs if e["ev"] == "envstate"]
         for c, o in pairs_of(evs):
             c = dict(c); o = dict(o)
             c["id"] = o["id"] = "%s:%s" % (tag, c["id"])
@@ -464,7 +479,7 @@ def check_C18(tier, seed):
         for sha in order:
             for c, o in by_src[sha]:
                 f.write(json.dumps(c) + "\n" + json.dumps(o) + "\n")
-        for e in sched_events + sys_events:
+        for e in sched_events + sys_events + env_events:
             f.write(json.dumps(e) + "\n")
     full = sum(1 for e in sched_events if len(e["order"]) == len(e["schedule"]))
     rep.notes.append("%d of %d scheduled runs followed their exported interleaving to the end (the rest finished a call early)" % (full, len(sched_events)))
@@ -540,6 +555,10 @@ def check_C19(tier, seed):
                     cases.append({"id": "fmt-%s%d-%s%s" % (cls, si, plan, "-late" if late else ""), "family": "fmt-" + plan, "S": S,
                                   "opts": F.opts(rustfmt=True, enc=True, mv="glam"), "fmt_plan": plan, "fmt_late": late, "size_class": cls})
                     k += 1
+    for i, S in enumerate(small[:2]):
+        for plan in ("absent", "noexec", "ok"):
+            cases.append({"id": "fmt-nohome%d-%s" % (i, plan), "family": "fmt-" + plan, "S": S, "opts": F.opts(rustfmt=True, enc=True, mv="glam"), "fmt_plan": plan, "fmt_late": False, "size_class": "small",
+                          "env": {"HOME": None, "CARGO_HOME": None, "RUSTUP_HOME": None, "USER": None}})
     for plan in ("near_drop_last", "near_drop_last_raw", "near_twice", "near_swap", "ok", "fail_after_read"):
         cases.append({"id": "fmt-huge-%s" % plan, "family": "fmt-" + plan, "S": huge, "opts": F.opts(rustfmt=True, enc=True, mv="glam"), "fmt_plan": plan, "fmt_late": False, "size_class": "large"})
     # formatter-on = formatter-off, token for token, on many more shaders (real rustfmt through the stub)
